@@ -639,3 +639,142 @@ def pure_helpers(src, rel, within, have, log, rules=()):
         else:
             j += 1
     return "\n".join(out)
+
+
+# ---------------------------------------------------------------------------------------------------------------------
+# R16: `match &BUF[..] { [a, b, rest @ .., z] if G => BODY, ... , other => BODY }` over a byte vector -> if / else-if chain.
+# Each slice pattern becomes a length test plus element tests in pattern order; an identifier element binds a reference to that
+# element, `name @ ..` binds the sub-slice (through `slice_sub`, contract: the sub-range).  Arms are tried in source order, an arm's
+# guard after its pattern -- the order `match` itself uses.
+def slice_match_to_if(toks, buf, log, sub_fn="slice_sub", all_fn="slice_all"):
+    from .extract import split_arms
+    p = Pat(f"match & {buf} [ .. ] {{")
+    out = list(toks)
+    for i in range(len(out)):
+        r = p.match_at(out, i)
+        if r is None:
+            continue
+        o = r[0] - 1
+        c = match_close(out, o)
+        arms = split_arms(out[o + 1:c])
+        chain = []
+        for pat, body in arms:
+            guard = None
+            d = 0
+            for q, t in enumerate(pat):
+                if t in ("(", "[", "{"): d += 1
+                elif t in (")", "]", "}"): d -= 1
+                elif t == "if" and d == 0:
+                    guard, pat = pat[q + 1:], pat[:q]
+                    break
+            # alternatives
+            alts, cur, d = [], [], 0
+            for t in pat:
+                if t in ("(", "[", "{"): d += 1
+                elif t in (")", "]", "}"): d -= 1
+                if t == "|" and d == 0:
+                    alts.append(cur); cur = []
+                else:
+                    cur.append(t)
+            alts.append(cur)
+            if len(alts) == 1 and len(alts[0]) == 1 and IDENT_RE.match(alts[0][0]):
+                # catch-all binding
+                name = alts[0][0]
+                chain.append((["true"], [] if name == "_" else ["let", name, "=", all_fn, "(", "&", buf, ")", ";"], guard, body))
+                continue
+            conds, binds = [], []
+            for alt in alts:
+                if not (alt and alt[0] == "[" and alt[-1] == "]"):
+                    raise Undecided(f"slice match on {buf}: pattern `{text(alt)}` is not a slice pattern")
+                elems, cur, d = [], [], 0
+                for t in alt[1:-1]:
+                    if t in ("(", "[", "{"): d += 1
+                    elif t in (")", "]", "}"): d -= 1
+                    if t == "," and d == 0:
+                        elems.append(cur); cur = []
+                    else:
+                        cur.append(t)
+                if cur:
+                    elems.append(cur)
+                rest_at = [k for k, e in enumerate(elems) if e[-1] == ".."]
+                if len(rest_at) > 1:
+                    raise Undecided(f"slice match on {buf}: two rest patterns")
+                n = len(elems)
+                tests, b = [], []
+                if rest_at:
+                    k0 = rest_at[0]
+                    tests.append([buf, ".", "len", "(", ")", ">=", str(n - 1)])
+                else:
+                    k0 = None
+                    tests.append([buf, ".", "len", "(", ")", "==", str(n)])
+                for k, e in enumerate(elems):
+                    if k0 is not None and k == k0:
+                        if len(e) == 3 and e[1] == "@":
+                            after = n - 1 - k
+                            b += ["let", e[0], "=", sub_fn, "(", "&", buf, ",", str(k), ",", buf, ".", "len", "(", ")", "-", str(after), ")", ";"]
+                        elif e != [".."]:
+                            raise Undecided(f"slice match on {buf}: rest pattern `{text(e)}`")
+                        continue
+                    idx = [str(k)] if (k0 is None or k < k0) else [buf, ".", "len", "(", ")", "-", str(n - k)]
+                    if len(e) == 1 and IDENT_RE.match(e[0]) and not e[0][0].isupper():
+                        b += ["let", e[0], "=", "&", buf, "[", *idx, "]", ";"]
+                    elif len(e) == 1:
+                        tests.append([buf, "[", *idx, "]", "==", e[0]])
+                    else:
+                        raise Undecided(f"slice match on {buf}: element pattern `{text(e)}`")
+                conds.append(tests)
+                binds.append(b)
+            if len(alts) > 1 and any(binds):
+                raise Undecided(f"slice match on {buf}: bindings inside alternatives")
+            cond = []
+            for a_i, tests in enumerate(conds):
+                if a_i:
+                    cond.append("||")
+                cond.append("(")
+                for t_i, t in enumerate(tests):
+                    if t_i:
+                        cond.append("&&")
+                    cond += t
+                cond.append(")")
+            chain.append((cond, binds[0], guard, body))
+        new = []
+        # an arm whose guard fails falls through to the next arm: each arm is `if PAT && GUARD` (guards here never use the bindings
+        # unless stated: a guard mentioning a bound name fails closed)
+        for a_i, (cond, b, guard, body) in enumerate(chain):
+            bound = {b[k + 1] for k in range(len(b)) if b[k] == "let"}
+            if guard and bound & set(guard):
+                raise Undecided(f"slice match on {buf}: guard uses a name bound by its pattern")
+            full = ["(", *cond, ")"] + (["&&", "(", *guard, ")"] if guard else [])
+            bd = body[1:-1] if body and body[0] == "{" else [*body, ";"]
+            new += (["else"] if a_i else []) + ["if", *full, "{", *b, *bd, "}"]
+        log.append(("R16", f"match &{buf}[..] {{ {len(chain)} slice-pattern arms }}", "if / else-if chain (length test, element tests, bindings), arms in source order", "slice patterns"))
+        return out[:i] + new + out[c + 1:]
+    raise Undecided(f"`match &{buf}[..]` not found")
+
+
+# ---------------------------------------------------------------------------------------------------------------------
+# R2 (expression position): `V.iter().all(|x| BODY)` / `.any(..)` on a vector named by one identifier, anywhere an expression may stand
+# -> a counting loop whose invariant is BODY itself read as a specification (`forall j < i: BODY[x := &V[j]]`).  BODY must be pure and
+# readable in specification context (comparisons, the vocabulary's when_used_as_spec functions); otherwise the text does not compile
+# and the unit is undecided.
+_self_spec_n = [0]
+
+
+def self_spec_all_any():
+    def mk(kind):
+        def repl(b):
+            a, x, body = text(b["a"]), text(b["x"]), b["body"]
+            _self_spec_n[0] += 1
+            k = _self_spec_n[0]
+            i, r = f"verif_si_{k}", f"verif_sr_{k}"
+            spec = lambda j: "(" + text([f"(&{a}@[{j}])" if t == x else t for t in body]) + ")"
+            if kind == "all":
+                inv = (f"invariant {i} <= {a}.len(), {r} == (forall|verif_j: int| 0 <= verif_j < {i} ==> {spec('verif_j')}) decreases {a}.len() - {i}")
+                return ["{", f"let mut {i} : usize = 0 ; let mut {r} = true ; while {i} < {a} . len ( )", G(inv),
+                        "{", f"let {x} = & {a} [ {i} ] ; if ! (", *body, f") {{ {r} = false ; }} {i} += 1 ;", "}", r, "}"]
+            inv = (f"invariant {i} <= {a}.len(), {r} == (exists|verif_j: int| 0 <= verif_j < {i} && {spec('verif_j')}) decreases {a}.len() - {i}")
+            return ["{", f"let mut {i} : usize = 0 ; let mut {r} = false ; while {i} < {a} . len ( )", G(inv),
+                    "{", f"let {x} = & {a} [ {i} ] ; if (", *body, f") {{ {r} = true ; }} {i} += 1 ;", "}", r, "}"]
+        return repl
+    return [Rule("R2", "$a . iter ( ) . all ( | $x | $$body )", mk("all"), why="all() over a vector in expression position -> loop; the closure body doubles as the invariant"),
+            Rule("R2", "$a . iter ( ) . any ( | $x | $$body )", mk("any"), why="any() over a vector in expression position -> loop; the closure body doubles as the invariant")]
